@@ -143,7 +143,12 @@ def _set_model(initial=()):
 
     def update(ex, self, other):
         self.fields['members'].items.extend(other.fields['members'].items)
-    return Obj('set', {'members': Tup(list(initial), 'list')}, {'add': add, 'update': update}, name='valueMap')
+    def contains(ex, self, x):
+        # whether an operand is listed among the ancestors is not known here: the map also holds the operands of the
+        # set's own operands (the alternatives of a union), so either answer is possible for any constraint
+        return ex.fresh('valueMap.has', __import__('z3').BoolSort())
+    return Obj('set', {'members': Tup(list(initial), 'list')}, {'add': add, 'update': update, '__contains__': contains},
+               name='valueMap')
 
 
 ANCESTOR = Obj('ConstraintSet', {}, name='ancestor')
